@@ -10,7 +10,7 @@ import numpy as np
 
 from .. import ratio
 from .. import tracecommon as tcm
-from ..core import MachineryFailure
+from ..core import MachineryFailure, mix
 
 
 def cfg_text(kinds, maxn=2, maxn2=0, vals=(1, 2), cells="Cells3", maxcols=0, maxrows=2, mutations=(), emit=True,
@@ -208,7 +208,22 @@ def make_sessions(ctx, n):
             a = [ctx.rng.randint(1, 9) for _ in range(ctx.rng.randint(1, 8))]
             if sum(a) < 2:
                 a[0] += 2
-            call = lambda: prs.pc_n(np.array(a))                                # noqa: E731
+            # the multiplicity vector in every integer width (and as floats, as a Series): the pair count sum n(n-1) may exceed
+            # the width of the vector's own dtype although every entry (and every term) fits it
+            dt = ("int64", "uint8", "int16", "uint16", "int32", "float64", "series", "list")[mix(sid) % 8]
+            if dt == "uint8":
+                a = [ctx.rng.randint(8, 40) for _ in range(ctx.rng.randint(3, 5))]
+            elif dt in ("int16", "uint16", "series"):
+                a = [ctx.rng.randint(140, 300) for _ in range(ctx.rng.randint(2, 3))]
+            elif dt in ("int32", "float64"):
+                a = [ctx.rng.randint(1, 300) for _ in range(ctx.rng.randint(2, 5))]
+            if dt == "list":
+                call = lambda: prs.pc_n(list(a))                                # noqa: E731
+            elif dt == "series":
+                import pandas as pd
+                call = lambda: prs.pc_n(pd.Series(a, index=[f"c{i}" for i in range(len(a))], dtype="int16"))   # noqa: E731
+            else:
+                call = lambda: prs.pc_n(np.array(a, dtype=dt))                  # noqa: E731
         else:
             ncol = ctx.rng.randint(1, 4)
             cells = [[], [1], [2], [1, 2], [2, 1], [1, 1]]
@@ -219,7 +234,12 @@ def make_sessions(ctx, n):
                     r[ctx.rng.randrange(ncol)] = ctx.rng.choice(cells)
                 return r
             a = [row() for _ in range(ctx.rng.randint(2, 12))]
-            v = ctx.rng.randint(0, 5)
+            v = (sid // 5) % 6                                      # every cell-text variant in turn, not left to the draw
+            if mix(sid) % 2 == 0 or v == 3:
+                # two rows that differ in one single-letter cell of the first column only ("1000001" / "1000002" in variant 3)
+                a[0] = list(a[0])
+                a[0][0] = [1]
+                a.append([[2]] + [list(c) for c in a[0][1:]])
             if k == "table2":
                 b = [row() for _ in range(ctx.rng.randint(1, 8))]
                 if sid % 2:
@@ -245,7 +265,8 @@ def make_sessions(ctx, n):
             ret, special = ratio.snap(call())
         except Exception:       # noqa: BLE001
             raised = True
-        out.append(dict(sid=sid, kind=k, a=a, b=b, events=[dict(op="Pc", raised=raised, ret=ret, special=special)]))
+        out.append(dict(sid=sid, kind=k, a=a, b=b, events=[dict(op="Pc", raised=raised, ret=ret, special=special)],
+                        form=(f"pc_n({dt} vector)" if k == "counts" else "")))
     return out
 
 
@@ -287,7 +308,7 @@ def run(ctx):
         ctx.traces += 1
         ctx.case(dict(kind="session:" + s["kind"], n=len(s["a"]), n2=len(s["b"]), ret=s["events"][0].get("ret", s["events"][0].get("num"))), nontrivial=True)
         for l, op, clause in tcm.failures(verd[s["sid"]]):
-            ctx.violation(f"pc/{s['kind']}/session/{clause}", f"pc-family call on {s['kind']} a={s['a']} b={s['b']}: {clause}, returned {s['events'][0]}"[:500],
+            ctx.violation(f"pc/{s['kind']}/session/{clause}", f"pc-family call {s.get('form', '')} on {s['kind']} a={s['a']} b={s['b']}: {clause}, returned {s['events'][0]}"[:500],
                           dict(kind="session", session=s))
     # corrupted trace
     c = copy.deepcopy(next(s for s in sessions if not s.get("big")))
